@@ -850,6 +850,7 @@ pub fn families(tier: Tier, _variant: &str) -> Vec<Family> {
         // skippers that lazy children go through
         v.push(Family::of_vec("block-edge-sweep", crate::props::lazy::block_edge_docs(if q { 70 } else { 135 }), |d, ctx| check_views(ctx, d)));
     }
+    v.push(Family::of_vec("number-shapes+spaced-empties", crate::props::lazy::shape_docs(), |d, ctx| check_views(ctx, d)));
     // part B
     {
         let all = ops();
